@@ -92,7 +92,10 @@ type conn struct {
 	s      *Server
 	inTx   bool
 	snap   snapshot
-	broken bool
+	// aborted: a statement failed inside the transaction; PostgreSQL ignores every
+	// later command until the end of the transaction block (25P02)
+	aborted bool
+	broken  bool
 	closed bool
 }
 
@@ -139,6 +142,7 @@ func (c *conn) Begin() (driver.Tx, error) {
 		return nil, driver.ErrBadConn
 	}
 	c.inTx = true
+	c.aborted = false
 	c.snap = c.s.DB.snapshot()
 	c.log(Event{Op: "begin"}, nil)
 	return &tx{c}, nil
@@ -169,6 +173,14 @@ func (t *tx) Commit() error {
 		c.log(Event{Op: "commit", InTx: true}, errInjected)
 		return errInjected
 	}
+	if c.aborted {
+		// COMMIT of a failed transaction is a ROLLBACK; lib/pq reports it as an error
+		c.s.DB.restore(c.snap)
+		c.inTx, c.aborted, c.snap = false, false, nil
+		err := &Error{Class: "aborted", Msg: "could not complete operation in a failed transaction"}
+		c.log(Event{Op: "commit", InTx: true}, err)
+		return err
+	}
 	c.inTx = false
 	c.snap = nil
 	c.log(Event{Op: "commit", InTx: true}, nil)
@@ -181,6 +193,7 @@ func (t *tx) Rollback() error {
 		c.s.DB.restore(c.snap)
 	}
 	c.inTx = false
+	c.aborted = false
 	c.snap = nil
 	c.log(Event{Op: "rollback", InTx: true}, nil)
 	if c.broken {
@@ -246,8 +259,16 @@ func (s *stmt) run(op string, args []driver.Value) (*Result, error) {
 		c.log(ev, errInjected)
 		return nil, errInjected
 	}
+	if c.inTx && c.aborted {
+		err := &Error{Class: "aborted", Msg: "current transaction is aborted, commands ignored until end of transaction block", Stmt: s.sql}
+		c.log(ev, err)
+		return nil, err
+	}
 	res, _, err := c.s.DB.Exec(s.sql, toArgs(args))
 	if err != nil {
+		if c.inTx {
+			c.aborted = true
+		}
 		c.log(ev, err)
 		return nil, err
 	}
@@ -344,10 +365,16 @@ func (cp *copyIn) flush() error {
 		return errInjected
 	}
 	cp.done = true
+	if c.inTx && c.aborted {
+		err := &Error{Class: "aborted", Msg: "current transaction is aborted, commands ignored until end of transaction block", Stmt: cp.sql}
+		c.log(ev, err)
+		return err
+	}
 	c.s.DB.Statements++
 	c.s.DB.Texts[strings.Join(strings.Fields(cp.sql), " ")]++
 	if err := c.s.DB.CopyRows(cp.st.table, cp.st.cols, cp.rows); err != nil {
 		err.Stmt = cp.sql
+		c.aborted = c.inTx
 		c.log(ev, err)
 		return err
 	}
